@@ -447,6 +447,61 @@ def runDynRF (c : Case) : List String :=
   let rest := (queue.take used).drop flushedBefore
   ["case " ++ c.id, "ints 0"] ++ lines ++ ["ops f", hexLine "vals" (rest.flatMap fun x => [x.1, x.2])]
 
+/-- rot <id> <n> <it> <nb> <K> <every> <lin|sin> ; extra = box(6) angle f_RF slip1 slip2 E0 [revpart V_RF V0] ;
+    aux = tan bl2phase syncphase ; aux2 = (arg, sin) per cell ; aux3 = (base, base^0..2) per row -/
+def runRot (c : Case) : List String :=
+  let n := natArg c 2
+  let it := natArg c 3
+  let nb := natArg c 4
+  let K := natArg c 5
+  let every := max (natArg c 6) 1
+  let lin := c.head.getD 7 "lin" == "lin"
+  let e := fun i => c.extra.getD i f32zero
+  let ax0 : Ruler Float32 := { steps := n, min := e 0, max := e 1 }
+  let ax1 : Ruler Float32 := { steps := n, min := e 2, max := e 3 }
+  let tanv := c.aux.getD 0 f32zero
+  let bl2 := c.aux.getD 1 f32zero
+  let sync := c.aux.getD 2 f32zero
+  let one : Float32 := Float32.ofBits 0x3f800000
+  let argsOk := lin || (List.range n).all fun x =>
+      (rfSinArg ax0 bl2 sync x).toBits == (c.aux2.getD (2 * x) f32zero).toBits
+  let baseOk := (List.range n).all fun y =>
+      (driftPowBase ax1 (e 5) (e 10) y).toBits == (c.aux3.getD (4 * y) f32zero).toBits
+  if !argsOk then ["case " ++ c.id, "error sine-argument-mismatch"] else
+  if !baseOk then ["case " ++ c.id, "error pow-base-mismatch"] else
+  let rfRow : Nat → Float32 := fun x =>
+    if lin then rfOffsetLinear tanv ax0.zerobin bl2 ax0.delta sync sync one x
+    else rfOffsetSin (e 11) (e 12) (e 13) ax1.delta (e 5) one (fun x => c.aux2.getD (2 * x + 1) f32zero) x
+  let pw : Nat → Nat → Float32 := fun y i => c.aux3.getD (4 * y + 1 + i) f32zero
+  let drRow : Nat → Float32 := fun y => driftOffset [e 6, e 8, e 9] ax1 ax0.delta pw y
+  let rfOff := ((List.range n).map rfRow).toArray
+  let drOff := ((List.range n).map drRow).toArray
+  let mkRows (off : Array Float32) : Option (Array (List (Hi Float32))) :=
+    (List.range n).foldl (fun acc r =>
+      match acc, smRow n it (off.getD r f32zero) with
+      | some a, some row => some (a.push row)
+      | _, _ => none) (some #[])
+  match mkRows rfOff, mkRows drOff with
+  | some rfRows, some drRows =>
+    let qArr := ((List.range n).map ax0.at).toArray
+    let pArr := ((List.range n).map ax1.at).toArray
+    let cent (g : Array Float32) (k : Nat) : String :=
+      let (m0, mq, mp) := (List.range (n * n)).foldl (fun (acc : Float × Float × Float) i =>
+        let v := (g.getD i f32zero).toFloat
+        (acc.1 + v, acc.2.1 + v * (qArr.getD (i / n) f32zero).toFloat, acc.2.2 + v * (pArr.getD (i % n) f32zero).toFloat))
+        (0.0, 0.0, 0.0)
+      hexLine "vals" [Float32.ofNat k, (mq / m0).toFloat32, (mp / m0).toFloat32, m0.toFloat32]
+    let step (g : Array Float32) : Array Float32 :=
+      let g2 := (applyY n nb 0 (fun r => rfRows.getD r []) (fun i => g.getD i f32zero)).toArray
+      (applyX n nb (fun r => drRows.getD r []) (fun i => g2.getD i f32zero)).toArray
+    let (g, lines) := (List.range K).foldl (fun (acc : Array Float32 × List String) k0 =>
+      let (g, out) := acc
+      let g' := step g
+      let k := k0 + 1
+      (g', if k % every == 0 || k == K then out ++ [cent g' k] else out)) (c.data, [cent c.data 0])
+    ["case " ++ c.id, hexLine "off" rfOff.toList, hexLine "off" drOff.toList] ++ lines ++ [hexLine "out" g.toList]
+  | _, _ => ["case " ++ c.id, "undefined float-to-uint32"]
+
 def dispatch (c : Case) : List String :=
   match c.kind with
   | "kick" => runKick c
@@ -460,6 +515,7 @@ def dispatch (c : Case) : List String :=
   | "fpiter" => runFPIter c
   | "main" => runMainCase c
   | "dynrf" => runDynRF c
+  | "rot" => runRot c
   | "drift" => runDrift c
   | k => ["case " ++ c.id, "error unknown-kind " ++ k]
 
